@@ -44,6 +44,10 @@ func zs(z *big.Int) string {
 	return z.String()
 }
 
+// numeric constants of the package declared as `const name = <literal>` (a literal moved into a named constant is the
+// same literal)
+var namedConsts = map[string]string{}
+
 func lit(e ast.Expr) (string, bool) {
 	for {
 		if p, ok := e.(*ast.ParenExpr); ok {
@@ -54,6 +58,11 @@ func lit(e ast.Expr) (string, bool) {
 	}
 	if b, ok := e.(*ast.BasicLit); ok && (b.Kind == token.FLOAT || b.Kind == token.INT) {
 		return b.Value, true
+	}
+	if id, ok := e.(*ast.Ident); ok {
+		if v, ok := namedConsts[id.Name]; ok {
+			return v, true
+		}
 	}
 	return "", false
 }
@@ -207,6 +216,100 @@ func main() {
 	var blend, rng, reach agg
 	var gridArgs []string
 	gridCalls, gridInsideNotOk, gridInsideLoadOrStore := 0, 0, 0
+	// pre-pass: named numeric constants; the functions IntersectQuad calls (the in-range test may live in a helper of
+	// it); the helper, if any, that builds the state Init hands to LoadOrStoreModuleState
+	funcs := map[string]*ast.FuncDecl{}
+	intersectHelpers := map[string]bool{}
+	stateHelper := ""
+	if err == nil {
+		for _, pkg := range pkgs {
+			for _, file := range pkg.Files {
+				for _, d := range file.Decls {
+					switch v := d.(type) {
+					case *ast.GenDecl:
+						if v.Tok == token.CONST {
+							for _, sp := range v.Specs {
+								vs := sp.(*ast.ValueSpec)
+								for i, nm := range vs.Names {
+									if i < len(vs.Values) && vs.Type == nil {
+										if bl, ok := vs.Values[i].(*ast.BasicLit); ok && (bl.Kind == token.FLOAT || bl.Kind == token.INT) {
+											namedConsts[nm.Name] = bl.Value
+										}
+									}
+								}
+							}
+						}
+					case *ast.FuncDecl:
+						if v.Body != nil {
+							funcs[v.Name.Name] = v
+						}
+					}
+				}
+			}
+		}
+		if fd := funcs["IntersectQuad"]; fd != nil {
+			for _, pkg := range pkgs {
+				for _, file := range pkg.Files {
+					for _, d := range file.Decls {
+						if f2, ok := d.(*ast.FuncDecl); ok && f2.Name.Name == "IntersectQuad" && f2.Recv == nil && f2.Body != nil {
+							ast.Inspect(f2.Body, func(n ast.Node) bool {
+								if ce, ok := n.(*ast.CallExpr); ok {
+									switch f := ce.Fun.(type) {
+									case *ast.Ident:
+										intersectHelpers[f.Name] = true
+									case *ast.SelectorExpr:
+										intersectHelpers[f.Sel.Name] = true
+									}
+								}
+								return true
+							})
+						}
+					}
+				}
+			}
+			delete(intersectHelpers, "InRangeWithEpsilon")
+		}
+		// Init: `LoadOrStoreModuleState(name, h())` or `x := h(); … LoadOrStoreModuleState(name, x)` with h a function of the
+		// package whose body is a single return of the state literal
+		for _, pkg := range pkgs {
+			for _, file := range pkg.Files {
+				for _, d := range file.Decls {
+					f2, ok := d.(*ast.FuncDecl)
+					if !ok || f2.Name.Name != "Init" || f2.Body == nil {
+						continue
+					}
+					assigned := map[string]string{}
+					ast.Inspect(f2.Body, func(n ast.Node) bool {
+						if as, ok := n.(*ast.AssignStmt); ok && len(as.Lhs) == 1 && len(as.Rhs) == 1 {
+							if id, ok := as.Lhs[0].(*ast.Ident); ok {
+								if ce, ok := as.Rhs[0].(*ast.CallExpr); ok && len(ce.Args) == 0 {
+									assigned[id.Name] = callName(ce)
+								}
+							}
+						}
+						if ce, ok := n.(*ast.CallExpr); ok {
+							if se, ok := ce.Fun.(*ast.SelectorExpr); ok && se.Sel.Name == "LoadOrStoreModuleState" && len(ce.Args) == 2 {
+								switch a := ce.Args[1].(type) {
+								case *ast.CallExpr:
+									if len(a.Args) == 0 {
+										stateHelper = callName(a)
+									}
+								case *ast.Ident:
+									stateHelper = assigned[a.Name]
+								}
+							}
+						}
+						return true
+					})
+				}
+			}
+		}
+		if h := funcs[stateHelper]; h == nil || len(h.Body.List) != 1 {
+			stateHelper = ""
+		} else if _, ok := h.Body.List[0].(*ast.ReturnStmt); !ok {
+			stateHelper = ""
+		}
+	}
 	if err == nil {
 		for _, pkg := range pkgs {
 			for _, file := range pkg.Files {
@@ -252,12 +355,23 @@ func main() {
 									blend.add(nil)
 								}
 							}
-							if name == "IntersectQuad" && fd.Recv == nil && cn == "InRangeWithEpsilon" && len(x.Args) == 4 {
+							if ((name == "IntersectQuad" && fd.Recv == nil) || (name != "IntersectQuad" && intersectHelpers[name])) && cn == "InRangeWithEpsilon" && len(x.Args) == 4 {
 								if l, ok := lit(x.Args[3]); ok {
 									rng.add(f32rat(l))
 								} else {
 									rng.add(nil)
 								}
+							}
+							if stateHelper != "" && name == stateHelper && cn == "NewRegularGrid" {
+								// the state literal of the helper Init hands to LoadOrStoreModuleState
+								gridCalls++
+								gridArgs = nil
+								for _, a := range x.Args {
+									if l, ok := lit(a); ok {
+										gridArgs = append(gridArgs, l)
+									}
+								}
+								gridInsideLoadOrStore++
 							}
 							if name == "Init" && cn == "NewRegularGrid" {
 								gridCalls++
